@@ -70,7 +70,7 @@ pub fn generate(prop: &str, tier: Tier, seed: u64, run: u64) -> Trace {
     let thorough = tier == Tier::Thorough;
     let mut t = match prop {
         "C14" => {
-            let canon = crate::gen_sixel::canonical_total();
+            let canon = crate::gen_sixel::canonical_total(thorough);
             if run < canon {
                 crate::gen_sixel::gen_c14(&mut rng, run, thorough)
             } else {
